@@ -484,8 +484,10 @@ func (r *pointRun[P]) affineCases(rng *rand.Rand) {
 	}
 	gx, gy := r.affineXY(g.G)
 	cs = append(cs, ac{"offcurve-y+1", gx, f.add(gy, f.small(1))}, ac{"offcurve-x+1", f.add(gx, f.small(1)), gy},
-		ac{"offcurve-swapped", gy, gx}, ac{"zero-zero", f.zero(), f.zero()}, ac{"zero-one", f.zero(), f.small(1)},
-		ac{"one-zero", f.small(1), f.zero()})
+		ac{"offcurve-swapped", gy, gx}, ac{"zero-one", f.zero(), f.small(1)}, ac{"one-zero", f.small(1), f.zero()})
+	if r.a.comp != fmtMontc { // (0, 0) is the Montgomery point of order two: already among the specials there
+		cs = append(cs, ac{"zero-zero", f.zero(), f.zero()})
+	}
 	if g.w != nil { // a point of the quadratic twist: x with a non-residue right-hand side, y = sqrt(rhs * nonresidue)
 		for i := int64(1); i < 100; i++ {
 			x := f.add(gx, f.small(i))
